@@ -1,6 +1,7 @@
 """C12 - width-independent updates: one Adam step moves every output by exactly lr."""
 from __future__ import annotations
 
+import collections
 import math
 
 from vlib import env  # noqa: F401
@@ -29,7 +30,9 @@ def cases(draw, tier):
     eta = draw(st.floats(math.log(1e-4), 0.0).map(lambda v: float(f"{math.exp(v):.6g}")) | st.sampled_from([1e-4, 1.0, 0.01]))
     return dict(kind=kind, fan_in=fi, fan_out=fo, kernel=k, depth=depth, eta=eta, opt=draw(st.sampled_from(["Adam", "AdamW"])),
                 constraint=draw(st.sampled_from(["default", None])), bias=draw(st.booleans()), seed=draw(st.integers(0, 10**6)),
-                batch=draw(st.sampled_from([None, 1])), container=draw(st.sampled_from(["padded", "padded", "shared-instance", "module-list"])))
+                batch=draw(st.sampled_from([None, 1])), container=draw(st.sampled_from(["padded", "padded", "shared-instance", "module-list"])),
+                lr_spell=draw(st.sampled_from(["keyword", "keyword", "positional", "tensor", "tensor-positional"])),
+                params_spell=draw(st.sampled_from(["weight-list", "weight-list", "model.parameters()"])))
 
 
 def run(c) -> CaseResult:
@@ -60,18 +63,35 @@ def run(c) -> CaseResult:
                 model = uu.DepthSequential(*[layer] * c["depth"])   # a weight-shared layer applied depth times
             else:
                 pads = [uu.Linear(1, 1, dtype=torch.float64) for _ in range(c["depth"] - 1)]
-                model = uu.DepthSequential(layer, *pads) if kind_c == "padded" else uu.DepthModuleList([layer] + pads)
+                if kind_c == "padded" and c["seed"] % 2:
+                    model = uu.DepthSequential(collections.OrderedDict([("first", layer)] + [(f"pad{i_}", p_) for i_, p_ in enumerate(pads)]))
+                    kind_c = "padded(OrderedDict)"
+                else:
+                    model = uu.DepthSequential(layer, *pads) if kind_c == "padded" else uu.DepthModuleList(iter([layer] + pads))
             res.labels.append(f"container={kind_c}")
         params = [p for p in layer.parameters()]
         if c["bias"]:
             params = [layer.weight]   # train the weight only: the statement is about the weight update
         Opt = uo.Adam if c["opt"] == "Adam" else uo.AdamW
-        opt = Opt(params, lr=c["eta"], eps=0.0, weight_decay=0.0, betas=(0.9, 0.999))
+        all_params = c.get("params_spell") == "model.parameters()"
+        if all_params:
+            params = model.parameters()   # every parameter as its own implicit group (a generator); only the weight will get a gradient
+        lr_spell = c.get("lr_spell", "keyword")
+        eta_arg = torch.tensor(c["eta"], dtype=torch.float64) if lr_spell.startswith("tensor") else c["eta"]
+        if lr_spell.endswith("positional"):
+            opt = Opt(params, eta_arg, eps=0.0, weight_decay=0.0, betas=(0.9, 0.999))
+        else:
+            opt = Opt(params, lr=eta_arg, eps=0.0, weight_decay=0.0, betas=(0.9, 0.999))
+        res.labels += [f"lr={lr_spell}", f"params={c.get('params_spell', 'weight-list')}"]
         y0 = layer(x)
         gmag = torch.exp(torch.empty(y0.shape, dtype=torch.float64).uniform_(math.log(1e-3), math.log(1e3), generator=g))
         gsign = torch.randint(0, 2, y0.shape, generator=g).to(torch.float64) * 2 - 1
         gup = gmag * gsign
         y0.backward(gup)
+        if all_params:
+            for p_ in model.parameters():
+                if p_ is not layer.weight:
+                    p_.grad = None   # the statement is about the weight update: the other parameters take no step
         opt.step()
         y1 = layer(x)
     except Exception as e:  # noqa: BLE001
@@ -95,7 +115,7 @@ CHECK = Check(
     rule=("Hypothesis: layer in {Linear, LinearReadout, Conv1d with input length = kernel size}, fan_in/fan_out in [1,4096] (product "
           "<= 2^20), kernel 1-9, depth None or 1..64 (layer first in a DepthSequential / DepthModuleList padded with layers that get no gradient, or one weight-shared instance repeated depth times), eta "
           "log-uniform in [1e-4,1], +-1 inputs, upstream gradient magnitudes in [1e-3,1e3] with random signs, library Adam/AdamW with "
-          "eps=0, weight_decay=0, float64, default or None constraint. Oracle: layer(x) after step minus before == -eta/sqrt(depth) x "
+          "eps=0, weight_decay=0, float64, default or None constraint; lr by keyword / positionally / as a 0-d tensor; the optimizer given the weight alone or model.parameters() (all other gradients cleared). Oracle: layer(x) after step minus before == -eta/sqrt(depth) x "
           "sign(g) elementwise (1e-9 of eta). Non-trivial = fan_in != fan_out or kernel > 1 or a depth."),
     assumptions=["torch.optim.Adam first step with eps=0 moves each weight by -lr*sign(grad) (bias-correction cancels)",
                  "when the layer has a bias only the weight is trained (the statement concerns the weight update)"],
